@@ -868,12 +868,22 @@ def check_bloom_sizing(rep, fl, set_off):
     at, entry = dataflow(gs)
     # shape: clamp to >= 512, size starts 1, exp starts 0, loop while size < n { size <<= 1; exp += 1 }
     ret = norm(return_expr(gs, expand=False))
-    ok = ret[0] == "agg" and ret[2].endswith("Size::Size")
+    # the result is a pair of two variables, as a struct (`Size { size, exp }`) or a tuple (`(size, exp)`); which is
+    # which is told by role: the one that starts at 1 and doubles is the size, the one that starts at 0 and counts is
+    # the exponent
+    ok = ret[0] == "agg" and len(ret[3]) == 2 and all(x_[0] == "var" for x_ in ret[3])
     size_v = exp_v = None
+    size_name, exp_name = "size", "exp"
     if ok:
-        f = dict(zip(ret[4], ret[3]))
-        size_v, exp_v = f.get("size"), f.get("exp")
-        ok = size_v is not None and exp_v is not None and size_v[0] == "var" and exp_v[0] == "var"
+        names_ = list(ret[4]) if ret[4] and len(ret[4]) == 2 else ["0", "1"]
+        for nm_, v_ in zip(names_, ret[3]):
+            l_ = gs.name_local.get(v_[1])
+            ds_ = [norm(gs.def_expr(a_, b_, False)) for a_, b_ in gs.defs.get(l_, [])] if l_ is not None else []
+            if ("const", 1, "u64") in ds_ and any(d_[0] == "bin" and d_[1] == "Shl" for d_ in ds_):
+                size_v, size_name = v_, nm_
+            elif ("const", 0, "u64") in ds_ and any(d_[0] == "bin" and d_[1] == "Add" for d_ in ds_):
+                exp_v, exp_name = v_, nm_
+        ok = size_v is not None and exp_v is not None
     min_n = None
     if ok:
         sl, el = gs.name_local[size_v[1]], gs.name_local[exp_v[1]]
@@ -945,7 +955,7 @@ def check_bloom_sizing(rep, fl, set_off):
     if sz is None or not f:
         rep.missing("R14.5", fl, "Bloom::new: get_size call / constructor not found")
         return
-    S, E = ("field", sz, "size"), ("field", sz, "exp")
+    S, E = ("field", sz, size_name), ("field", sz, exp_name)
     if "size" not in f or "shift" not in f or "bitset" not in f:
         rep.bad("R14.5", fl, bn, "fields", "Bloom::new no longer derives the position mask (`size`), the hash shift (`shift`) and the bit array from get_size: fields %s" % sorted(f))
         return
